@@ -23,7 +23,7 @@ META = {
     "assumptions": [
         "exactness is demanded only when every partial power and the value fit in int64 "
         "(Python ints) or in the argument's own dtype (fixed-width numpy scalars)",
-        "float/complex evaluations are compared with relative tolerance 1e-9",
+        "float/complex evaluations are compared with relative tolerance 1e-9 plus 1e-14 x (number of terms) x (bound on the sum of |term| values): cancellation between large terms keeps their rounding",
     ],
     "min_evaluations": {"quick": 8000, "thorough": 150000},
 }
@@ -203,7 +203,7 @@ def exactness(poly_spec, params, param_specs):
         total += term
     if total > limit:
         ok = False
-    return exact, ok
+    return exact, ok, total
 
 
 def expected_value(pmodel, names, params):
@@ -276,7 +276,10 @@ def run_case(case, ctx):
     except ValueError:
         ctx.count("skipped_unbroadcastable")
         return
-    exact, representable = exactness(pspec, params, param_specs)
+    exact, representable, magnitude = exactness(pspec, params, param_specs)
+    # floating-point evaluation: terms of size `magnitude` may cancel; the rounding of each of them
+    # (a few ulp of its own size) stays in the result however small the sum is
+    atol = 0.0 if exact else 1e-14 * magnitude * max(len(pspec["exps"]), 1)
     if not representable:
         ctx.count("skipped_not_representable")
         return
@@ -293,7 +296,7 @@ def run_case(case, ctx):
         facts["failure"] = "type"
         ctx.violation(facts, f"full numeric evaluation returned a polynomial: {got!r:.200}", case)
         return
-    problem = O.mismatch(got, expected, rtol=rtol)
+    problem = O.mismatch(got, expected, rtol=rtol, atol=atol)
     if problem is not None:
         facts["failure"] = problem[0]
         ctx.violation(facts, f"call: {problem[1]}\n  poly={M.describe(pmodel, 300)}\n  "
@@ -316,7 +319,7 @@ def run_case(case, ctx):
             O.report_exception(ctx, dict(facts, rider="repeat"), err2, case,
                                what="second numpoly.call with the same args/kwargs objects")
             return
-        problem = O.mismatch(again, expected, rtol=rtol)
+        problem = O.mismatch(again, expected, rtol=rtol, atol=atol)
         if problem is not None:
             ctx.violation(dict(facts, rider="repeat", failure="repeat:" + problem[0]),
                           f"second numpoly.call with the same kwargs dict differs: {problem[1]}", case)
@@ -336,7 +339,7 @@ def run_case(case, ctx):
                 staged = poly(**{first: real[first]})
                 if isinstance(staged, numpoly.ndpoly):
                     staged = staged(**{n: real[n] for n in rest})
-                    sprob = O.mismatch(staged, expected, rtol=rtol)
+                    sprob = O.mismatch(staged, expected, rtol=rtol, atol=atol)
                 else:
                     # already constant after the first stage: the shapes of
                     # the remaining arguments can no longer enter
@@ -366,7 +369,7 @@ def run_case(case, ctx):
                     alt[n] = conv(v)
                 try:
                     res = poly(**alt)
-                    cprob = O.mismatch(res, expected, rtol=1e-9)
+                    cprob = O.mismatch(res, expected, rtol=1e-9, atol=atol)
                 except Exception as cerr:  # pylint: disable=broad-except
                     cprob = ("exception:" + type(cerr).__name__, str(cerr))
                 ctx.evaluated(("carrier", label) + sig, nontrivial)
